@@ -1,0 +1,129 @@
+//! Verification hooks. Compiled only with `--cfg pnordahl_monorail_verif`; with the guard
+//! off this module does not exist and the crate is unchanged.
+//!
+//! Every function is a thin wrapper that calls the crate's own code paths and hands the
+//! result back as plain data (or as the JSON the CLI would print).
+use std::collections::HashSet;
+use std::path::Path;
+
+use crate::app::analyze;
+use crate::core::{self, error::MonorailError, graph};
+
+fn err_json(e: &MonorailError) -> String {
+    serde_json::to_string(e).unwrap_or_else(|_| String::from("{\"type\":\"unserializable\"}"))
+}
+fn parse_cfg(cfg_json: &str) -> Result<core::Config, String> {
+    serde_json::from_str::<core::Config>(cfg_json)
+        .map_err(|e| err_json(&MonorailError::from(e)))
+}
+
+/// `Index::new` with every target visible: node labels in node order and the adjacency list.
+pub fn index_edges(cfg_json: &str, work: &Path) -> Result<(Vec<String>, Vec<Vec<usize>>), String> {
+    let cfg = parse_cfg(cfg_json)?;
+    let ths = cfg.get_target_path_set();
+    let index = core::Index::new(&cfg, &ths, work).map_err(|e| err_json(&e))?;
+    let adj = index.dag.verif_adj_list().clone();
+    let mut labels = Vec::with_capacity(adj.len());
+    for n in 0..adj.len() {
+        labels.push(
+            index
+                .dag
+                .get_label_by_node(&n)
+                .map_err(|e| err_json(&MonorailError::from(e)))?
+                .clone(),
+        );
+    }
+    Ok((labels, adj))
+}
+
+/// `Index::new` with the given targets visible, then `get_labeled_groups`.
+pub fn index_groups(
+    cfg_json: &str,
+    visible: &[String],
+    work: &Path,
+) -> Result<Vec<Vec<String>>, String> {
+    let cfg = parse_cfg(cfg_json)?;
+    let vis: HashSet<&String> = visible.iter().collect();
+    let mut index = core::Index::new(&cfg, &vis, work).map_err(|e| err_json(&e))?;
+    index
+        .dag
+        .get_labeled_groups()
+        .map_err(|e| err_json(&MonorailError::from(e)))
+}
+
+/// A bare `Dag`: set the edges, make each root's subtree visible in the order given, group.
+pub fn dag_groups(adj: &[Vec<usize>], roots: &[usize]) -> Result<Vec<Vec<usize>>, String> {
+    let mut dag = graph::Dag::new(adj.len());
+    for (i, nodes) in adj.iter().enumerate() {
+        dag.set_label(&i.to_string(), i)
+            .map_err(|e| err_json(&MonorailError::from(e)))?;
+        dag.set(i, nodes.clone());
+    }
+    for r in roots {
+        dag.set_subtree_visibility(*r, true)
+            .map_err(|e| err_json(&MonorailError::from(e)))?;
+    }
+    let groups = dag
+        .get_labeled_groups()
+        .map_err(|e| err_json(&MonorailError::from(e)))?;
+    let mut out = Vec::with_capacity(groups.len());
+    for g in groups {
+        let mut o = Vec::with_capacity(g.len());
+        for l in g {
+            o.push(l.parse::<usize>().map_err(|e| e.to_string())?);
+        }
+        out.push(o);
+    }
+    Ok(out)
+}
+
+/// `Index::new` (all targets visible) followed by `analyze::analyze`; the output is the JSON
+/// document `monorail analyze` prints (without the timestamp wrapper).
+pub fn analyze(
+    cfg_json: &str,
+    changes: Option<Vec<String>>,
+    show_changes: bool,
+    show_change_targets: bool,
+    show_target_groups: bool,
+    work: &Path,
+) -> Result<String, String> {
+    let cfg = parse_cfg(cfg_json)?;
+    let ths = cfg.get_target_path_set();
+    let mut index = core::Index::new(&cfg, &ths, work).map_err(|e| err_json(&e))?;
+    let input = analyze::AnalyzeInput::new(show_changes, show_change_targets, show_target_groups);
+    let changes = changes.map(|v| v.into_iter().map(|name| core::Change { name }).collect());
+    let out = analyze::analyze(&input, &mut index, changes).map_err(|e| err_json(&e))?;
+    serde_json::to_string(&out).map_err(|e| e.to_string())
+}
+
+/// A named point in the run's own bookkeeping. Does nothing unless the environment variable
+/// `MONORAIL_VERIF_POINTS` names it: `name=sleep:<ms>` or `name=abort:<nth hit>`, comma separated.
+pub fn point(name: &str) {
+    use std::sync::atomic::{AtomicUsize, Ordering};
+    static HITS: AtomicUsize = AtomicUsize::new(0);
+    let spec = match std::env::var("MONORAIL_VERIF_POINTS") {
+        Ok(s) => s,
+        Err(_) => return,
+    };
+    for item in spec.split(',') {
+        let mut kv = item.splitn(2, '=');
+        let (k, v) = match (kv.next(), kv.next()) {
+            (Some(k), Some(v)) => (k, v),
+            _ => continue,
+        };
+        if k != name {
+            continue;
+        }
+        if let Some(ms) = v.strip_prefix("sleep:") {
+            if let Ok(ms) = ms.parse::<u64>() {
+                std::thread::sleep(std::time::Duration::from_millis(ms));
+            }
+        } else if let Some(n) = v.strip_prefix("abort:") {
+            let n = n.parse::<usize>().unwrap_or(1);
+            let hit = HITS.fetch_add(1, Ordering::SeqCst) + 1;
+            if hit >= n {
+                std::process::abort();
+            }
+        }
+    }
+}
